@@ -82,6 +82,27 @@ func init() {
 				*(target.v.(*value)) = asAny(doc)
 				return iface{}
 			}
+			if _, ok := pt.Elem().Underlying().(*types.Struct); ok {
+				// decoding into a plain struct (e.g. the duplicate parse for `name`): bind by yaml tags;
+				// a type mismatch is a decode error, as with the real decoder
+				var res value = iface{}
+				func() {
+					defer func() {
+						if r := recover(); r != nil {
+							if be, ok := r.(bindErr); ok {
+								res = fr.i.mkError(fr, "yaml: unmarshal errors: "+be.msg)
+								return
+							}
+							panic(r)
+						}
+					}()
+					fr.i.bindInit = load(pt.Elem(), target.v.(*value))
+					v := fr.i.bind(fr, doc, pt.Elem(), "")
+					fr.i.bindInit = nil
+					store(pt.Elem(), target.v.(*value), v)
+				}()
+				return res
+			}
 		}
 		panic(pathAbort{"unsupported: yaml Decode into " + target.t.String()})
 	})
